@@ -14,6 +14,8 @@
 (*                  synchronized instance: every slot is m                 *)
 (*   gencache       a call held at the yield point of the generic function   *)
 (*                  while the method is redefined (GenCache.tla)           *)
+(*   gencache2      the same with the call held by its own argument, an    *)
+(*                  object whose class hierarchy waits at a gate           *)
 (*   tables         concurrent defvar / defmethod / calls / printing /     *)
 (*                  intern: every routine saw the values it must see       *)
 (***************************************************************************)
@@ -31,7 +33,7 @@ Judge(e) == IF e.st # "ok" THEN "status"
                    [] e.kind = "syncinst" -> IF Len(e.slots) = e.n /\ \A k \in 1..e.n : e.slots[k] = e.m THEN "" ELSE "slots"
                    \* GenCache.tla: a definition cannot complete while a call is inside the critical section of the generic
                    \* function, the held call runs the old or the new method, and afterwards the new method is the one called
-                   [] e.kind = "gencache" -> IF e.gen.aok /\ e.gen.bok /\ ~e.gen.early /\ e.gen.a \in {"old", "new"} /\ e.gen.final = "new" THEN "" ELSE "generic cache"
+                   [] e.kind \in {"gencache", "gencache2"} -> IF e.gen.aok /\ e.gen.bok /\ ~e.gen.early /\ e.gen.a \in {"old", "new"} /\ e.gen.final = "new" THEN "" ELSE "generic cache"
                    [] e.kind = "tables" -> IF e.bad = <<>> THEN "" ELSE "tables"
                    [] OTHER -> "unknown kind"
 Init == l = 1 /\ bad = <<>>
